@@ -15,13 +15,26 @@ import (
 
 type c04Mut struct {
 	// bitflip | subst | insert | delete | truncate | swap-next | replay-prev | reflect | splice |
-	// meta-payload-swap | meta-over-payload | nonce-advance-cut | none
+	// meta-payload-swap | meta-over-payload | nonce-advance-cut | nonce-advance-seals | le-pad-flip | none
 	Kind string `json:"kind"`
 	// nonce | meta-ct | meta-tag | pad1 | payload-ct | payload-tag | pad2 | boundary
 	Class string  `json:"class"`
 	Unit  int     `json:"unit"`  // index among the units of the mutated direction that have this class
 	Rel   float64 `json:"rel"`   // relative position inside the class's byte range [0,1)
 	Param int     `json:"param"` // bit number / byte delta / number of bytes / number of segments
+	// Ext selects the class-aware semantics of c04_ext.go (round 3): swap-next / replay-prev / reflect /
+	// splice act on the byte range of Class (exchange with the next unit's range, overwrite with the
+	// previous unit's / the opposite direction's range, tail splice at the start of the range), Class
+	// "boundary" = the whole unit; bitflip / subst on "boundary" hit the last byte of the unit,
+	// truncate on "boundary" cuts the stream after the unit (TCP) / the datagram at the 72-byte header
+	// boundary + Param (UDP); insert with ToLen > 0 grows the unit to exactly ToLen bytes.
+	Ext   bool `json:"ext,omitempty"`
+	ToLen int  `json:"to_len,omitempty"`
+	// Target (UDP): which datagrams are eligible — "" = first transmissions of data-bearing data
+	// datagrams, "open" = open session request / response, "ack" = pure acks.
+	Target string `json:"target,omitempty"`
+	// PayloadLen > 0: only a unit whose metadata announces exactly this payload length is eligible.
+	PayloadLen int `json:"payload_len,omitempty"`
 }
 
 // c04Unit is one genuine unit with its decoding.
@@ -235,6 +248,30 @@ func (t *c04TCP) emit(d *c04StreamDir, u *c04Unit) []byte {
 		}
 		return u.Raw
 	}
+	if m.Kind == "nonce-advance-seals" {
+		// remove the stream up to the sender's Param-th AEAD operation and advance the clear-text
+		// initial nonce by Param: on a unit boundary this is nonce-advance-cut; between a unit's two
+		// seals the receiver starts on the PAYLOAD nonce, in front of the payload's ciphertext
+		if t.applied {
+			return u.Raw
+		}
+		if t.cutSeal+u.seals() <= m.Param {
+			t.cut++
+			t.cutSeal += u.seals()
+			return nil
+		}
+		t.applied = true
+		t.target = u
+		if t.cutSeal == m.Param {
+			raw := u.Raw
+			if u.HasNonce {
+				raw = raw[24:]
+			}
+			return append(addToNonce(t.nonce0, m.Param), raw...)
+		}
+		t.cutSeal++
+		return append(addToNonce(t.nonce0, m.Param), u.Raw[u.layout()["payload-ct"].lo:]...)
+	}
 	if d.held != nil {
 		h := d.held
 		d.held = nil
@@ -242,6 +279,9 @@ func (t *c04TCP) emit(d *c04StreamDir, u *c04Unit) []byte {
 	}
 	if t.applied || m.Kind == "none" || !u.has(m.Class) || (u.Index == 0 && (m.Kind == "replay-prev" || m.Kind == "splice")) {
 		return u.Raw
+	}
+	if m.Kind == "le-pad-flip" && !(u.Seg.IsLE() && u.Seg.PayloadLen >= 16) {
+		return u.Raw // needs a low-entropy body of at least two 8-byte chunks
 	}
 	if d.seen < m.Unit {
 		d.seen++
@@ -285,6 +325,26 @@ func (t *c04TCP) emit(d *c04StreamDir, u *c04Unit) []byte {
 			}
 		}
 		return u.Raw
+	case "le-pad-flip":
+		// one PADDING bit of a low-entropy body flipped (Param 0: in the first 8-byte chunk — "mixed padding";
+		// Param 1: in a later chunk — "non-uniform padding"). A padding bit is one whose flip makes the
+		// reference decoder reject the body (flipping a data bit never does).
+		raw := append([]byte(nil), u.Raw...)
+		lo, n := u.layout()["payload-ct"].lo, int(u.Seg.PayloadLen)
+		from, to := 0, 8
+		if m.Param != 0 {
+			from, to = 8, n
+		}
+		for off := from; off < to && off < n; off++ {
+			for bit := uint(0); bit < 8; bit++ {
+				raw[lo+off] ^= 1 << bit
+				if _, err := wire.LEDecode(raw[lo:lo+n], int(u.Seg.ExtractedLen), u.Seg.Byte1, u.Seg.LEMask, u.Seg.LERot); err != nil {
+					return raw
+				}
+				raw[lo+off] ^= 1 << bit
+			}
+		}
+		return u.Raw
 	default:
 		return mutateInUnit(u, m, t.k.Seed)
 	}
@@ -307,6 +367,13 @@ type c04UDP struct {
 	dgIndex int // simnet index of the mutated datagram
 	mutTime time.Time
 	seqSeen map[uint32]bool // sequence numbers already transmitted in the mutated direction
+	// class-aware kinds (c04_ext.go)
+	prevClass   *c04Unit // previous eligible datagram of the mutated direction that has the class
+	other       *c04Unit // latest datagram of the OPPOSITE direction that has the class
+	otherMaxSeq uint32   // highest sequence number seen in the opposite direction
+	otherSeen   bool
+	held        *c04Unit // swap-next on a byte range: the first unit waits for the next one
+	mutated2    []byte   // … whose mutated form is the second mutated datagram
 }
 
 // c04ObserveWindow: after a datagram was mutated, genuine retransmissions of the same sequence number
@@ -314,22 +381,54 @@ type c04UDP struct {
 // mutated copy (it acknowledges within a few milliseconds if it did).
 const c04ObserveWindow = 300 * time.Millisecond
 
+func (p *c04UDP) eligibleTarget(seg *wire.Segment) bool {
+	switch p.k.Mut.Target {
+	case "open":
+		return seg.Proto == wire.OpenSessionRequest || seg.Proto == wire.OpenSessionResponse
+	case "ack":
+		return seg.IsAck()
+	}
+	if p.k.Mut.PayloadLen > 0 && int(seg.PayloadLen) != p.k.Mut.PayloadLen {
+		return false
+	}
+	return seg.IsData() && seg.PayloadLen > 0
+}
+
 func (p *c04UDP) plan(d *simnet.Datagram) []simnet.Delivery {
 	p.mu.Lock()
 	defer p.mu.Unlock()
 	c2s := d.To == p.server
-	if c2s != p.k.C2S || p.k.Mut.Kind == "none" {
+	m := p.k.Mut
+	if m.Kind == "none" {
+		return []simnet.Delivery{{}}
+	}
+	if c2s != p.k.C2S && !(m.Kind == "reflect") {
 		return []simnet.Delivery{{}}
 	}
 	seg, err := wire.OpenUDP(d.Data, p.keys)
 	if err != nil {
 		return []simnet.Delivery{{}}
 	}
+	if c2s != p.k.C2S {
+		// the opposite direction: remember how far its numbering got (a reflected datagram can only be
+		// taken for new data while its sequence number is ahead of that) and its latest unit that has
+		// the class (source of the reflected byte range)
+		if seg.IsData() || seg.IsSession() {
+			if !p.otherSeen || seg.Seq > p.otherMaxSeq {
+				p.otherMaxSeq = seg.Seq
+			}
+			p.otherSeen = true
+		}
+		ou := &c04Unit{Raw: append([]byte(nil), d.Data...), Seg: seg, HasNonce: true}
+		if ou.has(m.Class) && seg.IsData() {
+			p.other = ou
+		}
+		return []simnet.Delivery{{}}
+	}
 	u := &c04Unit{Raw: append([]byte(nil), d.Data...), Seg: seg, HasNonce: true, Index: p.index}
 	p.index++
-	m := p.k.Mut
 	if p.applied && p.mutated != nil && p.target != nil && seg.SessionID == p.target.Seg.SessionID && seg.Seq == p.target.Seg.Seq &&
-		seg.IsData() && time.Since(p.mutTime) < c04ObserveWindow {
+		(seg.IsData() || seg.IsSession()) && seg.Proto == p.target.Seg.Proto && time.Since(p.mutTime) < c04ObserveWindow {
 		d.Fate = "held-for-observation"
 		return nil
 	}
@@ -337,17 +436,47 @@ func (p *c04UDP) plan(d *simnet.Datagram) []simnet.Delivery {
 		if seg.PayloadLen > 0 {
 			p.prev = u
 		}
+		if p.eligibleTarget(seg) && u.has(m.Class) {
+			p.prevClass = u
+		}
 	}()
 	if p.seqSeen == nil {
 		p.seqSeen = map[uint32]bool{}
 	}
-	firstTx := !p.seqSeen[seg.Seq]
-	if seg.IsData() {
+	firstTx := !p.seqSeen[seg.Seq] || seg.IsAck()
+	if seg.IsData() || seg.IsSession() {
 		p.seqSeen[seg.Seq] = true
 	}
-	// the campaign targets first transmissions of data-bearing datagrams after the handshake (its
-	// loss costs seconds)
-	eligible := !p.applied && firstTx && u.has(m.Class) && (seg.IsData() && seg.PayloadLen > 0) && (m.Kind != "splice" && m.Kind != "replay-prev" || p.prev != nil)
+	if p.held != nil && m.Ext && m.Kind == "swap-next" {
+		// the second unit of a byte-range swap
+		if !(p.eligibleTarget(seg) && u.has(m.Class)) {
+			return []simnet.Delivery{{}}
+		}
+		h := p.held
+		p.held = nil
+		a, b := c04SwapRange(h, u, m.Class)
+		p.mutated, p.mutated2 = a, b
+		d.Fate = "mutated:swap-next/" + m.Class
+		return []simnet.Delivery{{Data: a}, {Data: b}}
+	}
+	// the campaign targets first transmissions (a loss costs a retransmission timeout), by default of
+	// data-bearing datagrams after the handshake
+	eligible := !p.applied && firstTx && u.has(m.Class) && p.eligibleTarget(seg)
+	if !m.Ext {
+		eligible = eligible && (m.Kind != "splice" && m.Kind != "replay-prev" || p.prev != nil)
+	} else {
+		switch m.Kind {
+		case "splice", "replay-prev":
+			eligible = eligible && p.prevClass != nil
+		case "reflect":
+			eligible = eligible && (m.Class == "boundary" || p.other != nil)
+		}
+	}
+	if m.Kind == "reflect" && m.Ext && m.Class == "boundary" {
+		// whole-datagram reflection: only a datagram whose sequence number the sender has not yet
+		// received from its peer can be mistaken for the peer's data
+		eligible = eligible && p.otherSeen && seg.Seq > p.otherMaxSeq+1
+	}
 	if !eligible {
 		return []simnet.Delivery{{}}
 	}
@@ -360,6 +489,9 @@ func (p *c04UDP) plan(d *simnet.Datagram) []simnet.Delivery {
 	p.dgIndex = d.Index
 	p.mutTime = time.Now()
 	d.Fate = "mutated:" + m.Kind + "/" + m.Class
+	if m.Ext {
+		return p.planExt(u, d)
+	}
 	switch m.Kind {
 	case "swap-next":
 		return []simnet.Delivery{{Delay: 25 * time.Millisecond}}
